@@ -216,7 +216,9 @@ T_C03_Quiescent ==
 ---------------------------------------------------------------------------
 (* C08  machine capacity; exact processing delay; drawn once *)
 IsWorkNode(n) == Node(n).type \in {"machine", "splitter", "combiner"}
-T_C08_Cap == \A n \in 1..NN : Node(n).type = "machine" => F.nd[n].held <= Node(n).wc
+\* (a splitter has one worker; a combiner may gather the next pallet while the previous one waits to be pushed)
+T_C08_Cap == \A n \in 1..NN : /\ Node(n).type = "machine" => F.nd[n].held <= Node(n).wc
+                              /\ Node(n).type = "splitter" => F.nd[n].held <= 1
 \* first offer (reserve_put / can_put probe / discard) of a unit of work exactly at pull/draw + delay
 OfferedUnit(G, x) == IF G.it[x].pl[1] = "pal" THEN G.it[x].pl[2] ELSE x
 T_C08_Offer ==
